@@ -84,6 +84,8 @@ def _kwargs(spec):
         return {"disable_infer_genes": True, "disable_infer_transcripts": True}
     if opt == "force_gff":
         return {"force_gff": True}
+    if opt == "keep-suffix":
+        return {"_keep_tempfiles": ".kept"}  # documented: keep the intermediate file, named with this suffix
     return {}
 
 
@@ -195,7 +197,9 @@ class ConfigLeg(object):
                 if sp["gtf"] and draw(st.integers(0, 3)) == 0:
                     sp["cds_only"] = True  # a GTF without exon lines: nothing to infer, still an intermediate file
                 if sp["gtf"]:
-                    sp["options"] = draw(st.sampled_from(["default", "default", "no-inference", "force_gff"]))
+                    sp["options"] = draw(st.sampled_from(["default", "default", "no-inference", "force_gff", "keep-suffix"]))
+                elif draw(st.integers(0, 5)) == 0:
+                    sp["options"] = "keep-suffix"
                 elif draw(st.integers(0, 3)) == 0:
                     sp["shallow"] = draw(st.sampled_from(["genes-only", "two-level"]))  # GFF3 without grandchildren
                 z = draw(st.integers(0, 9))
@@ -267,6 +271,11 @@ class ConfigLeg(object):
             db = gffutils.create_db(p, os.path.join(outdir, "solo%d.db" % i), **_kwargs(spec))
             solo.append(dbsnap.snapshot(db))
             db.conn.close()
+            if spec.get("options") == "keep-suffix":
+                kept = [x for x in os.listdir(shared_tmp) if x.endswith(".kept")]
+                if len(kept) != 1:
+                    return Failure("a solitary import with _keep_tempfiles='.kept' left %r" % sorted(os.listdir(shared_tmp)), sig={"kind": "temp-kept"})
+                os.unlink(os.path.join(shared_tmp, kept[0]))
         if os.listdir(shared_tmp):
             return Failure("a solitary import left %r in the temp dir" % sorted(os.listdir(shared_tmp))[:3], sig={"kind": "temp-left"})
         leftovers = [n for n in os.listdir(ctx.tmp) if n not in ("shared_tmp", "out")]
@@ -312,8 +321,15 @@ class ConfigLeg(object):
                 return Failure("concurrent import %d of %d differs from the solitary import of the same input: %s"
                                % (k, n, dbsnap.diff(want, item[2])), sig={"kind": "differs-from-solitary"})
         left = sorted(os.listdir(shared_tmp))
+        n_keep = sum(1 for k in range(n) if case["inputs"][case["assign"][k]].get("options") == "keep-suffix"
+                     and solo[case["assign"][k]] != "fails")
+        kept = [x for x in left if x.endswith(".kept")]
+        left = [x for x in left if not x.endswith(".kept")]
         if left:
             return Failure("after %d concurrent imports the shared temp dir still holds %r" % (n, left[:5]), sig={"kind": "temp-left"})
+        if len(kept) != n_keep:
+            return Failure("%d concurrent imports were asked to keep their intermediate file (suffix '.kept'); %d such files exist: %r"
+                           % (n_keep, len(kept), kept[:5]), sig={"kind": "temp-kept"})
         iv = [(res[k][3], res[k][4]) for k in range(n)]
         overlap = sum(1 for a in range(n) for b in range(a + 1, n) if iv[a][0] < iv[b][1] and iv[b][0] < iv[a][1])
         met = sum(1 for k in range(n) if "met" in res[k][5])
